@@ -358,6 +358,9 @@ func runC05(c *Ctx) {
 			if g.Class == 0 || r.Chance(80) {
 				g.Class = 1
 			}
+			if i%6 == 0 {
+				c05Generic(c, g)
+			}
 			if !makeTextWF(r, g) {
 				continue
 			}
